@@ -328,3 +328,218 @@ mutant("c14-blocking-lock-ignores-timeout", "C14", POOL,
        '''                fcntl.lockf(fd, fcntl.LOCK_EX | fcntl.LOCK_NB)''',
        '''                fcntl.lockf(fd, fcntl.LOCK_EX)''',
        note="waits forever instead of raising after the timeout")
+
+# ---- traversal properties (Engine T) -----------------------------------------------------------------
+RUNNER = "avocado_i2n/plugins/runner.py"
+INTERTEST = "avocado_i2n/intertest_setup.py"
+mutant("c01-parent-dropped-without-run-check", "C01", GRAPH,
+       '''                    if not next.should_run(worker):
+                        previous.drop_parent(next, worker)''',
+       '''                    previous.drop_parent(next, worker)''', checks=["C01", "C10", "C02"])
+mutant("c01-locations-skip-result-workers", "C01", NODE,
+       '''            for net_suffix in node.shared_result_worker_ids:
+                setup_locations += [net_suffix + ":" + setup_path]''',
+       '''            for net_suffix in []:
+                setup_locations += [net_suffix + ":" + setup_path]''', checks=["C01", "C08"])
+mutant("c01-setup-ready-after-first-parent", "C01", NODE,
+       '''            if worker.id not in self._dropped_setup_nodes.get_workers(node):
+                return False
+        return True
+
+    def is_cleanup_ready''',
+       '''            if worker.id not in self._dropped_setup_nodes.get_workers(node):
+                return False
+            return True
+        return True
+
+    def is_cleanup_ready''', checks=["C01", "C02"])
+mutant("c01-scan-decision-inverted", "C01", NODE,
+       '''            should_scan = not self.is_finished(worker, 1)''',
+       '''            should_scan = self.is_finished(worker, 1)''', checks=["C01", "C03"])
+mutant("c05-reversible-nodes-cleaned-immediately", "C05", NODE,
+       '''        if not is_reversible:
+            return True
+        else:
+''',
+       '''        if True:
+            return True
+        else:
+''', checks=["C05", "C01"])
+mutant("c02-no-path-reset-on-bounce", "C02", GRAPH,
+       '''                # reset the worker path to improve overall ergodicity (it will look for other work)
+                traverse_path = [root]
+                # postpone this worker as it might traverse most of the graph (better done when nothing else to do)''',
+       '''                # postpone this worker as it might traverse most of the graph (better done when nothing else to do)''',
+       checks=["C02", "C04"])
+mutant("c02-incompatible-workers-never-recorded", "C02", GRAPH,
+       '''                test_node.incompatible_workers.add(test_object.long_suffix)''',
+       '''                pass''', checks=["C02"])
+mutant("c03-no-unknown-placeholder", "C03", RUNNER,
+       '''        node_result = {"name": name, "status": "UNKNOWN"}
+        node.results += [node_result]''',
+       '''        node_result = {"name": name, "status": "UNKNOWN"}
+        node.results += [node_result]
+        node.results.remove(node_result)
+        node.results = node.results + [] if False else node.results''',
+       note="placeholder appended and removed again before the first await", checks=["C03", "C10"])
+mutant("c03-scan-uses-full-threshold", "C03", NODE,
+       '''            should_scan = not self.is_finished(worker, 1)''',
+       '''            should_scan = not self.is_finished(worker, -1)''', checks=["C03", "C01"])
+mutant("c03-reruns-left-off-by-one", "C03", NODE,
+       '''        reruns_left = 0 if max_tries == 1 else max_tries - total_runs''',
+       '''        reruns_left = 0 if max_tries == 1 else max_tries - total_runs + 1''', checks=["C03", "C10"])
+mutant("c03-results-not-filtered-by-scope", "C03", NODE,
+       '''        for result in all_results:
+            if scope_filter in result["name"]:
+                results += [result]
+        return results''',
+       '''        return all_results''', checks=["C03", "C10", "C01"])
+mutant("c04-yield-between-occupation-check-and-claim", "C04", GRAPH,
+       '''        if test_node.is_occupied(worker):
+            return
+        test_node.started_worker = worker
+
+        # add previous results''',
+       '''        if test_node.is_occupied(worker):
+            return
+        await asyncio.sleep(0)
+        test_node.started_worker = worker
+
+        # add previous results''', checks=["C04", "C03"])
+mutant("c04-occupation-threshold-plus-one", "C04", NODE,
+       '''        return self.is_started(worker, max(max_concurrent_tries, 1))''',
+       '''        return self.is_started(worker, max(max_concurrent_tries, 1) + 1)''', checks=["C04", "C03"])
+mutant("c05-clean-ignores-involved-workers", "C05", NODE,
+       '''                if not picked_node.is_cleanup_ready(picked_worker):
+                    logging.debug(f"Node is not cleanup ready for {picked_worker.id}")
+                    return False''',
+       '''                if not picked_node.is_cleanup_ready(picked_worker):
+                    logging.debug(f"Node is not cleanup ready for {picked_worker.id}")''', checks=["C05", "C01"])
+mutant("c05-no-postponement-for-unexplored", "C05", GRAPH,
+       '''                    if not next.is_flat() and len(unexplored_nodes) > 0:''',
+       '''                    if False:''', checks=["C05", "C01"])
+mutant("c05-reuse-policy-treated-as-force", "C05", NODE,
+       '''            if unset_policy[0] == "f":
+                # reverse the state setup for the given test object''',
+       '''            if unset_policy[0] in ["f", "r"]:
+                # reverse the state setup for the given test object''', checks=["C05"])
+mutant("c08-all-workers-listed-as-sources", "C08", NODE,
+       '''            for net_suffix in node.shared_result_worker_ids:''',
+       '''            for net_suffix in [w.id for s in TestSwarm.run_swarms.values() for w in s.workers]:''', checks=["C08"])
+mutant("c08-failed-producers-listed", "C08", NODE,
+       '''            if result["status"] not in ["PASS", "WARN"]:
+                continue''',
+       '''            if result["status"] in ["UNKNOWN"]:
+                continue''', checks=["C08"])
+mutant("c08-source-params-from-executing-worker", "C08", NODE,
+       '''                            self.params[f"{key}{source_suffix}"] = worker.params[key]''',
+       '''                            self.params[f"{key}{source_suffix}"] = self.params.get(key, "")''', checks=["C08"])
+mutant("c10-stop-and-rerun-swapped", "C10", NODE,
+       '''        rerun_statuses_violated = {*test_statuses} - {*rerun_status}''',
+       '''        rerun_statuses_violated = {*test_statuses} - {*(stop_status or rerun_status)}''', checks=["C10"])
+mutant("c10-retries-share-one-identifier", "C10", RUNNER,
+       '''            node.prefix = original_prefix + f"r{run_times}"''',
+       '''            node.prefix = original_prefix''', checks=["C10"])
+mutant("c10-verdict-all-instead-of-any", "C10", RUNNER,
+       '''            shared_status &= any(''',
+       '''            shared_status &= all(''', checks=["C10"])
+mutant("c10-result-lookup-by-name-only", "C10", RUNNER,
+       '''                        if x["name"].name == name and x["name"].uid == uid''',
+       '''                        if x["name"].name == name''', checks=["C10"])
+mutant("c10-negative-max-tries-accepted", "C10", NODE,
+       '''        if max_tries < 0:
+            raise ValueError("Number of max_tries cannot be less than zero")''',
+       '''        if max_tries < 0:
+            max_tries = 1''', checks=["C10"])
+
+# ---- parse properties (Engine P) ------------------------------------------------------------------------
+mutant("c06-one-directional-dependency", "C06", NODE,
+       '''        test_node._cleanup_nodes[self] = test_node._cleanup_nodes.get(self, set()) | {
+            test_object
+        }''',
+       '''        if len(test_node._cleanup_nodes) < 2:
+            test_node._cleanup_nodes[self] = test_node._cleanup_nodes.get(self, set()) | {
+                test_object
+            }''', checks=["C06"])
+mutant("c06-parent-lookup-ignores-object-variant", "C06", GRAPH,
+       '''        filtered_parents = self.get_nodes(
+            "name", rf"(\\.|^){setup_obj_restr}(\\.|$)", subset=filtered_parents
+        )
+        filtered_parents = self.get_nodes(
+            "name", rf"(\\.|^){setup_net_restr}(\\.|$)", subset=filtered_parents
+        )''',
+       '''        filtered_parents = self.get_nodes(
+            "name", rf"(\\.|^){setup_net_restr}(\\.|$)", subset=filtered_parents
+        )''', checks=["C06", "C07"])
+mutant("c07-no-cloning-for-second-producer", "C07", GRAPH,
+       '''                if len(more_parents) > 1:
+                    children += self.parse_cloned_branches_for_node_and_object(''',
+       '''                if len(more_parents) > 99:
+                    children += self.parse_cloned_branches_for_node_and_object(''', checks=["C07"])
+mutant("c07-clone-state-not-renamed", "C07", GRAPH,
+       '''                child.params["get_state" + state_suffixes] = parent_state''',
+       '''                pass''', checks=["C07", "C06"])
+mutant("c07-dependency-restriction-from-default", "C07", GRAPH,
+       '''        setup_restr = object_params["get"]
+        setup_obj_restr = test_object.component_form''',
+       '''        setup_restr = test_node.params.get("get_images", object_params["get"])
+        setup_obj_restr = test_object.component_form''', checks=["C07"])
+mutant("c09-one-directional-bridging", "C09", NODE,
+       '''            self._bridged_nodes.append(test_node)
+            test_node._bridged_nodes.append(self)''',
+       '''            self._bridged_nodes.append(test_node)''', checks=["C09"])
+mutant("c09-bridged-register-not-shared", "C09", NODE,
+       '''            self._dropped_cleanup_nodes = test_node._dropped_cleanup_nodes''',
+       '''            pass''', checks=["C09"])
+mutant("c09-lazy-expansion-drops-vm-restrictions", "C09", GRAPH,
+       '''            filtered_vms = self.get_objects_by_restr(
+                test_node.restrs.get(vm_name, ""), subset=filtered_vms
+            )''',
+       '''            filtered_vms = self.get_objects_by_restr(
+                test_node.restrs.get(vm_name, "") if len(self.nodes) < 12 else "", subset=filtered_vms
+            )''', checks=["C09", "C07"], note="restriction honoured only while the graph is small: differs between eager and lazy order")
+
+# ---- tools -------------------------------------------------------------------------------------------------------
+mutant("c15-parents-of-target-flagged-for-cleanup", "C15", INTERTEST,
+       '''                        flag=lambda self, slot: len(self.cloned_nodes) == 0,
+                        skip_parents=True,''',
+       '''                        flag=lambda self, slot: len(self.cloned_nodes) == 0,
+                        skip_parents=False,''', checks=["C15"])
+mutant("c15-missing-target-state-swallowed", "C15", INTERTEST,
+       '''                    raise ValueError(
+                        f"Could not identify a test node from {vm_name}'s to_state='{flag_state}', "
+                        f"is it compatible with the default or specified remove_set?"
+                    )''',
+       '''                    continue''', checks=["C15"])
+mutant("c15-states-before-from-state-rerun", "C15", INTERTEST,
+       '''                clean_graph.flag_intersection(
+                    skip_graph, flag_type="run", flag=lambda self, slot: False
+                )''',
+       '''                pass''', checks=["C15"])
+mutant("c20-run-flag-inverted", "C20", INTERTEST,
+       '''    # as each worker's traversal will be restricted only to its nodes the run policy is also simpler
+    graph.flag_children(
+        flag_type="run",
+        flag=lambda self, slot: not self.is_shared_root()
+        and slot not in self.shared_finished_workers,
+    )''',
+       '''    # as each worker's traversal will be restricted only to its nodes the run policy is also simpler
+    graph.flag_children(
+        flag_type="run",
+        flag=lambda self, slot: not self.is_shared_root(),
+    )''', checks=["C20"], note="nodes run again for as long as they are asked")
+mutant("c20-vm-not-set-for-state-step", "C20", INTERTEST,
+       '''            setup_dict["vms"] = test_object.suffix
+''',
+       '''            setup_dict["vms"] = sorted(config["vm_strs"].keys())[0]
+''', checks=["C20"])
+mutant("c20-chain-stops-at-failing-step", "C20", "avocado_i2n/plugins/manu.py",
+       '''                    # return 1 if at least one of the steps fails
+                    retcode = 1''',
+       '''                    # return 1 if at least one of the steps fails
+                    retcode = 1
+                    break''', checks=["C20"])
+mutant("c20-exception-does-not-fail-chain", "C20", "avocado_i2n/plugins/manu.py",
+       '''                LOG_UI.error("Use 'export AVOCADO_LOG_EARLY=1' for further details.")
+                retcode = 1''',
+       '''                LOG_UI.error("Use 'export AVOCADO_LOG_EARLY=1' for further details.")''', checks=["C20"])
